@@ -378,6 +378,20 @@ EXTRA['eth2/beacon/common:ProcessSlot'] += [
     '//@   ensures c02_block_root: err == nil && state != nil && st_sroots(state) != st_broots(state) ==> !st_broots_err(state) && roots_now(n_set_root, st_broots(state), st_slot(state)) == header_root(BeaconBlockHeader(old(st_latest(state).Slot), old(st_latest(state).ProposerIndex), old(st_latest(state).ParentRoot), ite((forall k :: 0 <= k && k < 32 ==> old(st_latest(state).StateRoot[k]) == 0), %s, old(st_latest(state).StateRoot)), old(st_latest(state).BodyRoot)))' % _HTR]
 for k in ('eth2/beacon/common:ProcessSlots', 'eth2/beacon/common:StateTransition'):
     EXTRA.setdefault(k, []).append('//@   assigns ghost(n_set_root)')
+# process_eth1_data (C01): the vote is appended; eth1_data is replaced exactly when the vote's count, the new vote included, exceeds half the voting period
+PROPS['eth2/beacon/phase0:ProcessEth1Vote'] = ' C01'
+_EPER = '(spec.EPOCHS_PER_ETH1_VOTING_PERIOD * spec.SLOTS_PER_EPOCH)'
+EXTRA.setdefault('eth2/beacon/phase0:ProcessEth1Vote', [])
+EXTRA['eth2/beacon/phase0:ProcessEth1Vote'] += [
+    '//@   use votes_count_le_len',
+    '//@   assigns ghost(n_vote_append), ghost(last_vote_append), ghost(n_set_eth1), ghost(set_eth1)',
+    '//@   ensures c01_appended: err == nil && state != nil ==> !st_votes_err(state) && n_vote_append == old(n_vote_append) + 1 && last_vote_append == data',
+    '//@   ensures c01_majority: err == nil && spec != nil && state != nil && %s < 4611686018427387904 ==> n_set_eth1 == old(n_set_eth1) + ite(votes_count(n_vote_append, st_votes(state), data) * 2 > %s, 1, 0) && (n_set_eth1 > old(n_set_eth1) ==> set_eth1 == data)' % (_EPER, _EPER)]
+_E1G = '//@   assigns ghost(n_vote_append), ghost(last_vote_append), ghost(n_set_eth1), ghost(set_eth1)'
+for f in ('phase0', 'altair', 'bellatrix', 'capella', 'deneb'):
+    EXTRA.setdefault('eth2/beacon/%s:BeaconStateView.ProcessBlock' % f, []).append(_E1G)
+for k in ('eth2/beacon/common:PostSlotTransition', 'eth2/beacon/common:StateTransition'):
+    EXTRA.setdefault(k, []).append(_E1G)
 # end-of-epoch resets (C02): when they fire and with which epoch
 for n in ('ProcessEth1DataReset', 'ProcessSlashingsReset', 'ProcessRandaoMixesReset', 'ProcessHistoricalRootsUpdate'):
     PROPS['eth2/beacon/phase0:' + n] = ' C02'
